@@ -420,9 +420,24 @@ func checkC12(c *Check) {
 				nRet++
 				phiLeaves(r.Results[0], func(l ssa.Value) {
 					cl := asCall(l)
-					if cl == nil || callName(&cl.Call) != "(route.Leaf).URLPath" {
-						okRet = false
+					if cl != nil && callName(&cl.Call) == "(route.Leaf).URLPath" {
+						return
 					}
+					// an opt-in prefix: `prefix + leafText`, returned only where the router's prefix field is
+					// non-empty (with the default, empty, prefix the leaf's text comes back untouched)
+					if b, isB := strip(l).(*ssa.BinOp); isB && b.Op == token.ADD {
+						if c2 := asCall(b.Y); c2 != nil && callName(&c2.Call) == "(route.Leaf).URLPath" {
+							if root, ns, okF := fieldPath(b.X); okF && len(ns) == 1 && vParam(ru, 0)(root) {
+								nonEmpty := edgesWhere(ru, cEmptyStr(vField(vParam(ru, 0), ns[0])), false)
+								if g, _ := guardedBy(ru, nonEmpty, isInstr(r)); g && len(nonEmpty) > 0 {
+									if _, isPhi := strip(r.Results[0]).(*ssa.Phi); !isPhi {
+										return
+									}
+								}
+							}
+						}
+					}
+					okRet = false
 				})
 			})
 			c.Cond(okRet && nRet > 0, k+":returns-leaf-text", p.FuncPos(ru), "router.URLPath returns the leaf's text unchanged", "router.URLPath post-processes the text the leaf built (joined, trimmed or cleaned): a path whose first substituted value is empty or begins with '/' no longer comes back as substituted")
